@@ -133,6 +133,9 @@ func c14Specs(tier string, seed int) []c14Spec {
 				c14Case{Line: map[string]int{k: v}, NoFile: true},
 				c14Case{Line: map[string]int{k: v}, Order: []string{c14Unknown[0], k, c14Unknown[1]}},
 				c14Case{File: map[string]int{k: v}, Order: []string{c14Unknown[2], c14Unknown[3], c14Unknown[4]}},
+				// together with the other kinds of arguments a batch line may carry (crop file and crop parameter overrides, output id)
+				c14Case{Line: map[string]int{k: v}, Order: []string{"CropFile=PARAM.WW", k, "c_MAXAMAX=44"}},
+				c14Case{File: map[string]int{k: v}, Line: map[string]int{k: 1 - v}, Order: []string{"c_TSUM_1=150", "poligonID=Q7", k, "CropFile=PARAM.SM"}},
 			)
 		}
 		out = append(out, sp)
@@ -221,7 +224,7 @@ func c14Specs(tier string, seed int) []c14Spec {
 		out = append(out, c14Spec{Kind: "session", Key: keys[i], Cases: nil, E2E: strings.Join(keys[i:min(i+5, len(keys))], ",")})
 	}
 	// (5) end to end through complete runs and their result files
-	for _, k := range []string{"EndDate", "OutputIntervall", "ResultFileExt", "AnnualOutputDate", "ResultFileFormat", "NDeposition", "Fertilization"} {
+	for _, k := range []string{"EndDate", "OutputIntervall", "ResultFileExt", "AnnualOutputDate", "ResultFileFormat", "NDeposition", "Fertilization", "CorrectionPrecipitation", "KcFactorBareSoil", "ETpot", "LeachingDepth", "CO2concentration", "AnnualAverageTemperature"} {
 		out = append(out, c14Spec{Kind: "e2e", E2E: k})
 	}
 	return out
@@ -468,6 +471,13 @@ func c14E2E(sp c14Spec, c *mc.Ctx, root string) {
 		"ResultFileFormat": {{"0", "0"}, {"1", "1"}},
 		"NDeposition":      {{"0", "0"}, {"365", "365"}},
 		"Fertilization":    {{"50", "50"}, {"200", "200"}},
+		"CorrectionPrecipitation": {{"0", "0"}, {"1", "1"}},
+		"KcFactorBareSoil":        {{"0.4", "0.4"}, {"0.9", "0.9"}},
+		"ETpot":                   {{"2", "2"}, {"3", "3"}},
+		"LeachingDepth":           {{"5", "5"}, {"12", "12"}},
+		"CO2concentration":        {{"360", "360"}, {"700", "700"}},
+		"WeatherNoneValue":        {{"-99.9", "-99.9"}, {"0", "0"}},
+		"AnnualAverageTemperature": {{"4", "4"}, {"14", "14"}},
 	}[k]
 	// observable per key from the result files
 	observe := func(r *proj.RunResult) string {
@@ -494,7 +504,7 @@ func c14E2E(sp c14Spec, c *mc.Ctx, root string) {
 		case "NDeposition", "Fertilization":
 			return lines[len(lines)-1]
 		}
-		return ""
+		return strings.Join(lines[len(lines)-3:], " | ")
 	}
 	run := func(file, line string) (string, bool) {
 		b := e1Base{Soil: "loam12", GW: 99, InitW: 0.6, InitN: 20, ET: 3}
@@ -504,6 +514,15 @@ func c14E2E(sp c14Spec, c *mc.Ctx, root string) {
 		p.DailyCols = minimalDailyWith("C1:1", "DSUMM")
 		if k == "ResultFileFormat" {
 			p.Config["ResultFileExt"] = "res"
+		}
+		switch k {
+		case "CorrectionPrecipitation", "KcFactorBareSoil", "ETpot", "LeachingDepth", "CO2concentration", "WeatherNoneValue", "AnnualAverageTemperature":
+			p.DailyCols = minimalDailyWith("C1:1", "REGENSUM", "VERDUNST", "OUTSUM", "OBMAS", "TSOIL:0:3", "RADdaily")
+			p.Config["CO2method"] = "1"
+			p.SunColumn = true
+		}
+		if k == "CO2concentration" {
+			p.Rotation = append(p.Rotation[:1], proj.CropEntry{Crop: "SW", Sow: isoAdd(e1Start, 1), Harvest: isoAdd(e1Start, 200), Rex: 0})
 		}
 		delete(p.Config, k)
 		if file != "" {
@@ -515,8 +534,20 @@ func c14E2E(sp c14Spec, c *mc.Ctx, root string) {
 		for i := range word {
 			word[i] = "mild"
 		}
+		if k == "CO2concentration" {
+			for i := range word {
+				word[i] = "grow"
+			}
+		}
 		p.Weather = e1Weather(0, word, false)
+		if k == "WeatherNoneValue" {
+			// a day with radiation 0: a number under one setting, a missing value (radiation derived from the sunshine hours) under the other
+			p.Weather[21].Rad = 0
+		}
 		p.Write(root)
+		if k == "CorrectionPrecipitation" {
+			os.WriteFile(filepath.Join(root, "weather", "w", "preco.txt"), []byte("Mo Corr\n 1 1.25\n 2 1.50\n 3 1.12\n 4 1.50\n 5 1.25\n 6 1.00\n 7 0.75\n 8 1.75\n 9 1.37\n10 1.62\n11 1.87\n12 2.00\n"), 0o644)
+		}
 		if file == "" {
 			// remove the key from the written file
 			cf := filepath.Join(root, "project", p.ID, "config.yml")
@@ -564,6 +595,38 @@ func c14E2E(sp c14Spec, c *mc.Ctx, root string) {
 			if !ok || o != ref[v] {
 				c.Violate("result-files-do-not-reflect-line-value key="+k+" "+cse.name, fmt.Sprintf("key %s: file value %q, line value %q: result files show %q, a run with the line value in the file shows %q", k, cse.file, cse.line, o, ref[v]), nil)
 			}
+		}
+	}
+	// two runs of ONE session that differ only in the value on the line (the project files stay as they are): the later run
+	// must show its own value, not what the earlier run derived from the shared inputs
+	for v := 0; v < 2; v++ {
+		b := e1Base{Soil: "loam12", GW: 99, InitW: 0.6, InitN: 20, ET: 3}
+		_ = b
+		if o, ok := run("", vals[v].line); !ok || o != ref[v] { // (writes the project without the key in the file)
+			continue // already reported above
+		}
+		session := hermes.NewHermesSession()
+		var obs [2]string
+		okBoth := true
+		for i, vi := range []int{v, 1 - v} {
+			p := e1Project(e1Base{Soil: "loam12", GW: 99, InitW: 0.6, InitN: 20, ET: 3}, 20)
+			r := proj.RunSession(session, root, append(p.Args(root, k+"="+vals[vi].line), fmt.Sprintf("poligonID=S%d", i)), fmt.Sprintf("[%d]", i), nil)
+			c.Trace(1)
+			if !r.Success {
+				okBoth = false
+				obs[i] = "run failed: " + r.Err + r.Panic
+			} else {
+				obs[i] = observe(r)
+			}
+		}
+		session.Close()
+		c.Eval(1)
+		c.Transition(1)
+		h := mc.NewHasher().S("e2e-session").S(k).I(v).Sum()
+		c.State(h)
+		c.NonTrivial(h)
+		if !okBoth || obs[1] != ref[1-v] {
+			c.Violate("later-run-of-the-session-does-not-reflect-its-line-value key="+k, fmt.Sprintf("key %s: one session, first line %s=%s, second line %s=%s: the second run's result files show %q, a fresh run with that value shows %q", k, k, vals[v].line, k, vals[1-v].line, obs[1], ref[1-v]), nil)
 		}
 	}
 	c.Outcome("e2e-ok")
